@@ -123,7 +123,10 @@ VALRULE = ("every case is one HTTP request + server configuration + scripted key
            "built-in body types, both requirement containers); the implementation's outcome (accepted parts/body/identity or error kind, "
            "code, status), the provider calls it made and, through the `unstable` API, its canonical request and string-to-sign are compared "
            "with the model, and the property predicate is evaluated on the implementation's observation. non-trivial = not tagged trivial; "
-           "distinct = distinct input lines. ")
+           "distinct = distinct input lines. Besides its purpose-built family each validate-based property sees a broad covering corpus "
+           "(s3 x fold x carrier x form body, token, Date next to X-Amz-Date, proxy/SDK headers, boundary body sizes, calendar-edge and far "
+           "instants; each accepted request also with a flipped signature digit, a clock 16 min late and an unknown access key) under its own "
+           "predicate and projection; the input classes are listed in DESIGN.md section 12a. ")
 
 reg("C01", ["c01"],
     rule=VALRULE + "c01 family: reference-signed base requests (both carriers, +-token, S3/fold options) and, for each, every single-component "
